@@ -10,7 +10,11 @@ import (
 
 	"github.com/polynetwork/poly/common"
 	"github.com/polynetwork/poly/common/config"
+	"github.com/polynetwork/poly/core/types"
+	"github.com/polynetwork/poly/native"
 	"github.com/polynetwork/poly/native/event"
+	"github.com/polynetwork/poly/native/service/governance/side_chain_manager"
+	"github.com/polynetwork/poly/native/storage"
 	cstates "github.com/polynetwork/poly/core/states"
 	scom "github.com/polynetwork/poly/native/service/cross_chain_manager/common"
 	hscommon "github.com/polynetwork/poly/native/service/header_sync/common"
@@ -24,6 +28,10 @@ import (
 //	peers <nCons> <nCand>                      plant the governance view and the peer pool            -> ok
 //	net main|test                               config.DefConfig.P2PNode.NetworkId                      -> ok
 //	height <h>                                  height of the following blocks                          -> ok
+//	conc <g> <chain>...                         the registry / blacklist / done getters for these chains from g goroutines, each
+//	                                            with its own CacheDB over the block overlay; every answer must equal the
+//	                                            sequential one                                            -> ok | diverged
+//	eventlog on|off                             config.DefConfig.Common.EnableEventLog                  -> ok
 //	reg <chain> <router> | unreg <chain>        plant / remove a side-chain record                      -> ok
 //	black|white n=<nonce> s=<signers> <chain>   BlackChain / WhiteChain signed by <signers>             -> ok | reject:<class>
 //	dput <chain> <id> | dcheck <chain> <id>     the real PutDoneTx / CheckDoneTx on the committed state -> ok | done | free
@@ -198,6 +206,12 @@ func (f *ccmFam) Exec(r *hx.Run, op []string) string {
 		return "ok"
 	case "height":
 		w.height = uint32(u64(op[1]))
+		return "ok"
+	case "conc":
+		return f.concurrentReads(r, int(u64(op[1])), op[2:])
+	case "eventlog":
+		// config.DefConfig.Common.EnableEventLog (a node started with --disable-event-log); reset to on by every new case
+		config.DefConfig.Common.EnableEventLog = op[1] == "on"
 		return "ok"
 	case "reg":
 		before := w.writeSet()
@@ -500,7 +514,7 @@ func (f *ccmFam) doImport(r *hx.Run, op []string) string {
 		if nNewReq != 1 {
 			r.Viol(fmt.Sprintf("C22:request-count:%d", nNewReq), fmt.Sprintf("an executed import created %d request records", nNewReq))
 		}
-		if !evExecuted {
+		if !evExecuted && config.DefConfig.Common.EnableEventLog {
 			r.Viol("C22:no-makeProof-event", "an executed import did not emit the makeProof event")
 		}
 		// independent reference encoding of ToMerkleValue
@@ -648,6 +662,9 @@ func (f *ccmFam) Gen(r *hx.Run) {
 			if rng.Chance(1, 6) {
 				setH([]uint32{18822999, 18823000, 18823001}[rng.Intn(3)])
 			}
+		}
+		if c%3 == 2 {
+			r.Do("eventlog off") // a node started with --disable-event-log: requests and leaves must not depend on events
 		}
 		// chains
 		universe := []uint64{1, 2, 3, 4, 5, 6}
@@ -985,6 +1002,13 @@ func (f *ccmFam) Gen(r *hx.Run) {
 				r.Do(fmt.Sprintf("dcheck %d %s", c1, hx.Hex(b)))
 				r.Do(fmt.Sprintf("dcheck %d %s", c2, hx.Hex(a)))
 				r.Nontrivial(fmt.Sprintf("donetx/%d/%d", len(a), len(b)))
+			case x == 18 && rng.Chance(1, 3): // concurrent reads of registry, blacklist and done records
+				var cs []string
+				for _, u := range universe {
+					cs = append(cs, fmt.Sprint(u))
+				}
+				cs = append(cs, "77", "4242")
+				r.Do(fmt.Sprintf("conc %d %s", 2+rng.Intn(3), strings.Join(cs, " ")))
 			case x < 19: // registry
 				ch := universe[rng.Intn(len(universe))]
 				if _, ok := chainRouter[ch]; ok && rng.Bool() {
@@ -1005,4 +1029,114 @@ func (f *ccmFam) Gen(r *hx.Run) {
 			r.Sample(map[string]interface{}{"case": c, "nCons": nCons, "testnet": testnet, "ops": nOps})
 		}
 	}
+}
+
+// concurrentReads: RPC pre-execution runs native code concurrently with block execution in one process. The getters
+// of the contracts are asked for a set of chains sequentially first, then from g goroutines at once (own CacheDB and
+// native service each, over the same block overlay); answers must not depend on what another goroutine asks.
+func (f *ccmFam) concurrentReads(r *hx.Run, g int, chains []string) string {
+	w := f.w
+	type q struct {
+		kind  string
+		chain uint64
+		id    []byte
+	}
+	var qs []q
+	for _, c := range chains {
+		ch := u64(c)
+		qs = append(qs, q{"sidechain", ch, nil}, q{"black", ch, nil}, q{"fee", ch, nil}, q{"asset", ch, nil})
+		for mk := range f.marked {
+			var mc uint64
+			var idh string
+			fmt.Sscanf(mk, "%d/%s", &mc, &idh)
+			if len(qs) < 400 {
+				qs = append(qs, q{"done", ch, hx.UnHex(map[bool]string{true: "-", false: idh}[idh == ""])})
+			}
+		}
+		qs = append(qs, q{"done", ch, []byte{1, 2, 3}})
+	}
+	ask := func(ns *native.NativeService, x q) string {
+		switch x.kind {
+		case "sidechain":
+			sc, err := side_chain_manager.GetSideChain(ns, x.chain)
+			if err != nil {
+				return "err"
+			}
+			if sc == nil {
+				return "none"
+			}
+			return fmt.Sprintf("%d/%d/%s", sc.ChainId, sc.Router, sc.Name)
+		case "fee":
+			fee, err := side_chain_manager.GetFee(ns, x.chain)
+			if err != nil {
+				return "err"
+			}
+			if fee == nil || fee.Fee == nil {
+				return "none"
+			}
+			return fmt.Sprint(fee.View, fee.Fee)
+		case "asset":
+			ab, err := side_chain_manager.GetAssetBind(ns, x.chain)
+			if err != nil {
+				return "err"
+			}
+			return fmt.Sprint(len(ab.AssetMap), len(ab.LockProxyMap))
+		case "black":
+			b, err := scom.CheckIfChainBlacked(ns, x.chain)
+			return fmt.Sprint(b, err != nil)
+		default:
+			return fmt.Sprint(scom.CheckDoneTx(ns, x.id, x.chain) != nil)
+		}
+	}
+	newNS := func() *native.NativeService {
+		tx := &types.Transaction{ChainID: 0, SignedAddr: []common.Address{{0xee}}}
+		ns, err := native.NewNativeService(storage.NewCacheDB(w.overlay), tx, 0, w.height, common.Uint256{}, 0, nil, true)
+		if err != nil {
+			panic(err)
+		}
+		return ns
+	}
+	seq := make([]string, len(qs))
+	ns0 := newNS()
+	for i, x := range qs {
+		seq[i] = ask(ns0, x)
+	}
+	bad := make(chan string, g)
+	done := make(chan bool, g)
+	for k := 0; k < g; k++ {
+		go func(k int) {
+			defer func() {
+				if e := recover(); e != nil {
+					select {
+					case bad <- fmt.Sprintf("panic: %v", e):
+					default:
+					}
+				}
+				done <- true
+			}()
+			ns := newNS()
+			for rep := 0; rep < 60; rep++ {
+				for j := range qs {
+					i := (j*7 + k*13 + rep) % len(qs)
+					if got := ask(ns, qs[i]); got != seq[i] {
+						select {
+						case bad <- fmt.Sprintf("%s(chain %d) answered %s concurrently, %s sequentially", qs[i].kind, qs[i].chain, got, seq[i]):
+						default:
+						}
+						return
+					}
+				}
+			}
+		}(k)
+	}
+	for k := 0; k < g; k++ {
+		<-done
+	}
+	select {
+	case m := <-bad:
+		r.Viol("C21:concurrent-read-wrong", "with "+fmt.Sprint(g)+" native executions in one process: "+m)
+		return "diverged"
+	default:
+	}
+	return "ok"
 }
